@@ -483,29 +483,43 @@ private theorem render_good {alloc : Alloc} (hal : ValidAlloc alloc) {k : ConfId
         cases h
         exact colorLines_good hinv2 p sh.top sh.lines out hesc h3
 
+/-- the pattern of `strip_colors` read from the source: it ends in `m`, `m` is not in its class, and the
+class contains every parameter character the package emits (ASCII digits, `;`, `:`) -/
+theorem strip_pattern_ok : Gen.C10.stripFinal = 'm' ∧ Gen.C10.stripClass.mem 'm' = false ∧
+    ∀ c, isSgrParam c = true → Gen.C10.stripClass.mem c = true := by
+  refine ⟨by decide, by decide +kernel, ?_⟩
+  intro c hc
+  simp only [isSgrParam, Bool.or_eq_true, beq_iff_eq] at hc
+  simp only [Sgr.CharClass.mem, Bool.or_eq_true, List.any_eq_true]
+  rcases hc with (hd | rfl) | rfl
+  · right
+    refine ⟨(48, 57), by decide +kernel, ?_⟩
+    simp only [Char.isDigit, Bool.and_eq_true, decide_eq_true_eq] at hd
+    simp only [Bool.and_eq_true, decide_eq_true_eq]
+    have h1 : (48 : Nat) ≤ c.toNat := by have := hd.1; exact UInt32.le_iff_toNat_le.mp this
+    have h2 : c.toNat ≤ 57 := by have := hd.2; exact UInt32.le_iff_toNat_le.mp this
+    exact ⟨h1, h2⟩
+  · left; decide +kernel
+  · left; decide +kernel
+
 /-- **Stripping the colours gives the no-colour rendering.** After any histories: the coloured
-rendering of a shape with ESC-free content, with every `ESC [ … m` removed (`CHText.strip_colors`), is
-character for character the no-colour rendering of the same shape — whatever the configurations. -/
+rendering of a shape with ESC-free content, passed through the model of `CHText.strip_colors` (C09's
+`Sgr.strip` over the character class generated from the source; executed by the driver on every coloured
+whole text), is character for character the no-colour rendering of the same shape — whatever the
+configurations. -/
 theorem strip_eq {s₁ s₁' s₂ s₂' : State} (hs₁ : Reachable s₁) (hs₂ : Reachable s₂)
     {a₁ a₂ : Alloc} (ha₁ : ValidAlloc a₁) (ha₂ : ValidAlloc a₂) {k₁ k₂ : ConfId} {nc₁ : Bool} {sh : Shape}
     {o₁ o₂ : List (List Chunk)}
     (hesc : ∀ l ∈ sh.lines, ∀ ch ∈ l.chunks, esc ∉ ch.text)
     (h₁ : render cfg a₁ k₁ nc₁ sh s₁ = .ok (s₁', o₁)) (h₂ : render cfg a₂ k₂ true sh s₂ = .ok (s₂', o₂)) :
-    strip (strOf (wholeOf '\n' o₁)) = strOf (wholeOf '\n' o₂) := by
+    Sgr.strip Gen.C10.stripClass Gen.C10.stripFinal (strOf (wholeOf '\n' o₁)) = strOf (wholeOf '\n' o₂) := by
   have g := good_buildText _ (good_joinLines o₁ (render_good ha₁ (reachable_inv hs₁) hesc h₁))
   rw [show wholeOf '\n' o₁ = buildText (joinLines '\n' o₁) from rfl]
-  rw [strip_strOf _ (fun c hc => (g c hc).1) (fun c hc => (g c hc).2)]
+  rw [strip_pattern_ok.1]
+  rw [strip_strOf Gen.C10.stripClass strip_pattern_ok.2.2 strip_pattern_ok.2.1 _
+    (fun c hc => (g c hc).1) (fun c hc => (g c hc).2)]
   rw [(nocolor_no_esc hs₂ ha₂ h₂).2.1]
   exact (layout_indep h₁ h₂).2
-
-/-- **Line by line = whole.** The whole text shows the same characters in the same colours as the
-generated lines joined by plain newlines (chunks may be split differently: a whole text merges
-neighbours of equal colour and drops empty chunks, a line does not). -/
-theorem lines_eq_whole {alloc : Alloc} {k : ConfId} {nc : Bool} {sh : Shape} {s s' : State}
-    {out : List (List Chunk)} (_h : render cfg alloc k nc sh s = .ok (s', out)) :
-    cellsOf (wholeOf '\n' out) = joinCells '\n' out ∧
-    plainOf (wholeOf '\n' out) = (joinCells '\n' out).map Prod.fst :=
-  ⟨cellsOf_wholeOf '\n' out, by rw [plainOf_eq_cells, cellsOf_wholeOf]⟩
 
 private theorem reachable_both {s : State} (h : Reachable s) : Inv cfg s ∧ ResOk s := by
   obtain ⟨alloc, ops, hal, rfl⟩ := h
@@ -591,6 +605,103 @@ theorem lazy_whole_history_free {s s' : State} (hs : Reachable s) {alloc : Alloc
       cases h
       obtain ⟨pp, c', e1, e2, e3, e4⟩ := lines_of_holder hal hinv (hro.res r res hres) h1
       exact ⟨pp, c', e1, e2, e3, fun hst => by rw [e4 hst]⟩
+
+/-- **Line by line = whole, for what the model runs.** After any history: `str(r)` makes the whole text of a
+result; an iterator made afterwards over the same result and consumed completely yields lines whose join is
+exactly that whole text (same chunks, hence same characters and same colours) — for every configuration,
+closed or not, with no hypothesis on the accessors: the second generation reads the same palette objects,
+memoised sub-palettes and cached cells as the first. (The list identity `cellsOf (wholeOf sep ls) = joinCells sep
+ls`, valid for any lines, is `Render.cellsOf_wholeOf`.) -/
+theorem lines_eq_whole {s s1 s2 s3 : State} (hs : Reachable s) {alloc : Alloc} (hal : ValidAlloc alloc)
+    {r : ResId} {i : IterId} {n : Nat} {res : Res} {w : List Chunk} {outs : List (List Chunk)}
+    (hres : s.results.lookup r = some res) (hmemo : res.memo = none) (hn : res.lines.length ≤ n)
+    (h1 : strRes cfg alloc r s = .ok (s1, w)) (h2 : mkIter i r s1 = .ok s2)
+    (h3 : nextIter cfg alloc i n s2 = .ok (s3, outs)) :
+    w = wholeOf '\n' outs ∧ cellsOf w = joinCells '\n' outs := by
+  obtain ⟨hinv, _⟩ := reachable_both hs
+  -- the first generation
+  unfold strRes at h1
+  rw [hres] at h1
+  simp only [hmemo, bind, Except.bind] at h1
+  cases g1 : stepLines cfg alloc res.p res.top res.lines s with
+  | error e => simp [g1] at h1
+  | ok r1 =>
+    obtain ⟨sa, ls⟩ := r1
+    simp only [g1] at h1
+    cases h1
+    obtain ⟨hinva, _⟩ := stepLines_spec cfg_ok hal _ _ _ s _ _ hinv g1
+    -- the iterator copies palette and lines of the result
+    unfold mkIter at h2
+    simp only [] at h2
+    rw [lookup_cons_eq] at h2
+    simp only [] at h2
+    cases h2
+    unfold nextIter at h3
+    simp only [] at h3
+    rw [lookup_cons_eq] at h3
+    simp only [bind, Except.bind] at h3
+    have htake : res.lines.take n = res.lines := List.take_of_length_le hn
+    rw [htake] at h3
+    split at h3
+    · cases h3
+    · rename_i v g2
+      obtain ⟨sb, ls2⟩ := v
+      cases h3
+      have := stepLines_again cfg_ok key_by_object hal hal res.p res.top res.lines s sa _ sb ls ls2 hinv
+        (inv_lazy_irrel hinva _ _) g1 (frame_lazy sa _ _) g2
+      rw [this]
+      exact ⟨rfl, cellsOf_wholeOf '\n' ls⟩
+
+private theorem paintLines_congr (f g : Tag → Color) (ls : List SLine)
+    (h : ∀ l ∈ ls, ∀ ch ∈ l.chunks, f ch.tag = g ch.tag) : paintLines f ls = paintLines g ls := by
+  simp only [paintLines]
+  apply List.map_congr_left
+  intro l hl
+  have : paintChunks f l.chunks = paintChunks g l.chunks := by
+    simp only [paintChunks]
+    apply List.map_congr_left
+    intro ch hch
+    rw [h l hl ch hch]
+  simp only [paintLine, this]
+
+/-- **A after B = A alone.** Two renderings of the same shape, in any two reachable states (after any two
+histories, e.g. one of them empty), under closed configurations that may have learnt different syntax ids
+meanwhile: if the two configurations give the same colour to the syntax ids that the shape uses, the outputs
+are identical. What else was registered, rendered, cached or collected before does not matter. -/
+theorem same_colors_same_output {s₁ s₁' s₂ s₂' : State} (hs₁ : Reachable s₁) (hs₂ : Reachable s₂)
+    {a₁ a₂ : Alloc} (ha₁ : ValidAlloc a₁) (ha₂ : ValidAlloc a₂) {k₁ k₂ : ConfId} {nc : Bool} {sh : Shape}
+    {o₁ o₂ : List (List Chunk)} {c₁ c₂ : Conf}
+    (h₁ : render cfg a₁ k₁ nc sh s₁ = .ok (s₁', o₁)) (h₂ : render cfg a₂ k₂ nc sh s₂ = .ok (s₂', o₂))
+    (hc₁ : s₁'.confs.lookup k₁ = some c₁) (hc₂ : s₂'.confs.lookup k₂ = some c₂)
+    (hsame : ∀ t ∈ sh.tags, pureColor cfg c₁ nc t = pureColor cfg c₂ nc t)
+    (hclosed : nc = false → c₁.closed = true ∧ c₂.closed = true ∧ ∀ t ∈ sh.tags, tagStable cfg t = true) :
+    o₁ = o₂ := by
+  obtain ⟨d₁, d₁', _, e₁, f₁, _, g₁⟩ := history_free hs₁ ha₁ h₁
+  obtain ⟨d₂, d₂', _, e₂, f₂, _, g₂⟩ := history_free hs₂ ha₂ h₂
+  rw [hc₁] at e₁; cases e₁
+  rw [hc₂] at e₂; cases e₂
+  rw [g₁ (fun hf => ⟨by rw [← f₁]; exact (hclosed hf).1, (hclosed hf).2.2⟩),
+      g₂ (fun hf => ⟨by rw [← f₂]; exact (hclosed hf).2.1, (hclosed hf).2.2⟩)]
+  apply paintLines_congr
+  intro l hl ch hch
+  apply hsame
+  simp only [Shape.tags, List.mem_flatMap, List.mem_map]
+  exact ⟨l, hl, ch, hch, rfl⟩
+
+/-- **Registrations never change a colour a closed configuration already gives.** Whatever palette class
+registers its defaults in a configuration of a reachable state whose descriptions were all resolved at creation
+(this is the only way a configuration's syntax map ever changes after its creation): every syntax id the
+configuration knew keeps its colour, and an id that is still unknown afterwards keeps falling back to the same
+default colour. So "A after B" and "A alone" can only differ in ids that B's palette classes define and A uses
+without defining them (the accessors excluded by `tagStable`). -/
+theorem registration_keeps_colors {s : State} (hs : Reachable s) {k : ConfId} {c c' : Conf}
+    (hk : s.confs.lookup k = some c) (hclosed : c.closed = true) {cls : ClassId}
+    (hreg : registerCls cfg cls c = .ok c') (x : SyntId)
+    (hx : (c.smap.lookup x).isSome ∨ (c'.smap.lookup x).isNone) :
+    getColor cfg.dfltId c' x = getColor cfg.dfltId c x := by
+  have hc := (reachable_inv hs).confs k c hk
+  obtain ⟨_, hstep⟩ := registerCls_ok cfg_ok hc hreg
+  exact getColor_ext cfg.dfltId (hc.builtin _ (cfgOk_dflt cfg_ok)) (hc.closed hclosed) hstep.sub hstep.len hstep.nc x hx
 
 /-- **The synced `global_palette` has no memory either.** After any history its attributes are the
 colours that the global configuration in force gives to its syntax ids (whatever configurations were
